@@ -121,6 +121,11 @@ def check_single(C, s, scope, v, ex):
             got[call] = r.string if r is not None else None
             if r is None or (r.string and not r) or (not r and r.string):
                 got[call] = "INVALID:" + repr(r)
+            # the key passed by keyword, and asked again: the same answer
+            r2 = getattr(x, call)(key="version")
+            r3 = getattr(Sid(x.uri), call)("version")
+            if not (r2 == r and r3 == r and getattr(r2, "string", None) == getattr(r, "string", None) == getattr(r3, "string", None)):
+                out.append(dict(signature=f"{call}-answer-changes-with-the-spelling-of-the-call", observed=[s, got[call], getattr(r2, "string", None), getattr(r3, "string", None)], expected="same answer"))
         except Exception as e:  # noqa
             got[call] = "EXC " + type(e).__name__
     for call in exp:
